@@ -10,11 +10,15 @@
    "exists s', f ... = Some s'" also says that the call completes: no Python exception
    (list.index miss, min([]), index out of range) is reachable.
 
-   NOT proved (checked by the differential run in exact and in binary64 arithmetic, with the
-   reference algorithm as oracle): "whenever the closest pair is unique the bins equal those
-   of the reference streaming algorithm"; and the mean under binary64 ("up to rounding"). *)
+   Reference equivalence (the C13_reference theorems) is proved for any arithmetic whose addition commutes
+   (exact rationals and binary64 both do): the reference is [ref_update] of Proofs/C13_ref.v -
+   add to an equal centre, else insert in order, then while over capacity merge the FIRST
+   closest adjacent pair - and the premise "the closest pair is unique at each step" is
+   [uniq_trace] (only the tie between the in-place shortcut's two candidate gaps needs it).
+   NOT proved (checked by the differential run in binary64 arithmetic): the mean under
+   binary64 ("up to rounding"). *)
 From Coq Require Import QArith ZArith List Sorted Lia.
-From Orso Require Import Gen.C13_Disto Model.C13 Model.C13_Q Proofs.C13_lists Proofs.C13 Proofs.C13_hist Proofs.C13_prog Proofs.C13_cache.
+From Orso Require Import Gen.C13_Disto Model.C13 Model.C13_Q Proofs.C13_lists Proofs.C13 Proofs.C13_hist Proofs.C13_prog Proofs.C13_cache Proofs.C13_ref.
 Import ListNotations.
 Open Scope Q_scope.
 
@@ -164,6 +168,53 @@ Example C13_load_empty_stale :
   option_map (fun s => (length (bins s), diffs s)) (update QA (load QA 2 [] None None) 1 1%Z)
   = Some (1%nat, Some [0]).
 Proof. vm_compute. reflexivity. Qed.
+
+(* ---- reference equivalence ---- *)
+(* one update: on a valid histogram with an exact cache, whenever the closest pair after the
+   insertion is unique, update() returns exactly the reference's bins; any arithmetic whose
+   addition commutes *)
+Theorem C13_reference_update :
+  forall (fadd fsub fmul fdiv : Q -> Q -> Q) (fofZ : Z -> Q) (ftrunc : Q -> Z),
+  (forall a b, fadd a b = fadd b a) ->
+  forall (s s' : @st Q) (v : Q) (c : Z),
+  Inv s -> cache_exact fadd fsub fmul fdiv fofZ ftrunc s ->
+  update (AA fadd fsub fmul fdiv fofZ ftrunc) s v c = Some s' ->
+  closest_unique (gaps (AA fadd fsub fmul fdiv fofZ ftrunc) (ref_insert (AA fadd fsub fmul fdiv fofZ ftrunc) (bins s) v c)) ->
+  ref_update (AA fadd fsub fmul fdiv fofZ ftrunc) (cap s) (bins s) v c = Some (bins s').
+Proof. exact update_ref. Qed.
+Print Assumptions C13_reference_update.
+
+(* every history from an empty histogram: it completes and ends on the reference's bins *)
+Theorem C13_reference_history :
+  forall (fadd fsub fmul fdiv : Q -> Q -> Q) (fofZ : Z -> Q) (ftrunc : Q -> Z),
+  (forall a b, fadd a b = fadd b a) ->
+  forall (cap0 : nat) (l : list (Q * Z)),
+  (2 <= cap0)%nat -> pos_counts l -> uniq_trace fadd fsub fmul fdiv fofZ ftrunc cap0 [] l ->
+  exists s', feed (AA fadd fsub fmul fdiv fofZ ftrunc) (empty cap0) l = Some s' /\
+             ref_feed (AA fadd fsub fmul fdiv fofZ ftrunc) cap0 [] l = Some (bins s').
+Proof. exact history_ref. Qed.
+Print Assumptions C13_reference_history.
+
+(* the exact-arithmetic instance *)
+Theorem C13_reference_history_exact :
+  forall (cap0 : nat) (l : list (Q * Z)),
+  (2 <= cap0)%nat -> pos_counts l -> uniq_trace Qplus Qminus Qmult Qdiv inject_Z Qtrunc cap0 [] l ->
+  exists s', feed QA (empty cap0) l = Some s' /\ ref_feed QA cap0 [] l = Some (bins s').
+Proof. exact history_ref_exact. Qed.
+Print Assumptions C13_reference_history_exact.
+
+(* non-vacuity: a 13-step history on 3 bins (in-place merges and trims) meets the uniqueness
+   premise, and both sides evaluate to the same three bins *)
+Example C13_reference_nonvacuous :
+  let l := map (fun z => (inject_Z z, 1%Z)) [10; 20; 40; 24; 13; 80; 81; 5; 36; 36; 7; 100; 2]%Z in
+  uniq_trace Qplus Qminus Qmult Qdiv inject_Z Qtrunc 3 [] l /\
+  option_map (map (fun b => (Qred (fst b), snd b))) (ref_feed QA 3 [] l)
+    = Some [(81 # 7, 7%Z); (112 # 3, 3%Z); (87 # 1, 3%Z)] /\
+  option_map (fun s => map (fun b => (Qred (fst b), snd b)) (bins s)) (feed QA (empty 3) l)
+    = Some [(81 # 7, 7%Z); (112 # 3, 3%Z); (87 # 1, 3%Z)].
+Proof.
+  split; [apply uniq_traceb_sound; vm_compute; reflexivity|]. split; vm_compute; reflexivity.
+Qed.
 
 (* the default capacity the source gives a reloaded histogram satisfies that premise *)
 Theorem C13_default_capacity : (2 <= BIN_COUNT)%nat /\ (1 <= BULK_FACTOR)%nat.
